@@ -145,9 +145,17 @@ def make_pairing(nentries, props=("C17",), known=()):
         def name(kind, i, side):
             return None if kind is None else ("dir/f%d%s.%s" % (i, side, "ipynb" if kind == "nb" else "py"))
         entries = []
-        for i, (ka, kb, ba, bb, ondisk, same) in enumerate(spec):
-            entries.append(FakeEntry(name(ka, i, "a"), FakeBlob("A%d" % i) if ba else None,
-                                     name(kb, i, "b"), FakeBlob(("A%d" if same else "B%d") % i) if bb else None))
+        # the same request a second time in this process, after the refs moved
+        # (new commits: same paths, new blob contents)
+        again = E.choice("again", 2) if nentries else 0
+        gen = [""]
+
+        def fill_entries():
+            del entries[:]
+            for i, (ka, kb, ba, bb, ondisk, same) in enumerate(spec):
+                entries.append(FakeEntry(name(ka, i, "a"), FakeBlob("A%d%s" % (i, gen[0])) if ba else None,
+                                         name(kb, i, "b"), FakeBlob((("A%d" if same else "B%d") % i) + gen[0]) if bb else None))
+        fill_entries()
 
         class Tree(object):
             def __init__(self, tag):
@@ -202,23 +210,33 @@ def make_pairing(nentries, props=("C17",), known=()):
             start = os.path.join(ROOT, *popped) if popped else ROOT
             for fa, fb in gf.changed_notebooks(ref_base, ref_remote, paths, repo_dir=start):
                 got.append((fa, fb))
+            got2 = None
+            if again:
+                gen[0] = "'"
+                fill_entries()
+                got2 = []
+                for fa, fb in gf.changed_notebooks(ref_base, ref_remote, paths, repo_dir=start):
+                    got2.append((fa, fb))
         finally:
             gf.Repo, gf.apply_possible_filter, gf.io, nu.os, gf.os = saved
         # expectation by construction
-        want = []
-        for i, (ka, kb, ba, bb, ondisk, same) in enumerate(spec):
-            if ka == "other" or kb == "other":
-                continue
+        def expectation(suffix):
+            want = []
+            for i, (ka, kb, ba, bb, ondisk, same) in enumerate(spec):
+                if ka == "other" or kb == "other":
+                    continue
 
-            def side(kind, blob, is_remote):
-                if kind is None:
-                    return "MISSING"
-                if is_remote and remote_kind == 2:
-                    return "DISK%d" % i if ondisk else "MISSING"
-                if not blob:
-                    return "MISSING"
-                return ("B%d" if (is_remote and not same) else "A%d") % i
-            want.append((side(ka, ba, False), side(kb, bb, True)))
+                def side(kind, blob, is_remote):
+                    if kind is None:
+                        return "MISSING"
+                    if is_remote and remote_kind == 2:
+                        return "DISK%d" % i if ondisk else "MISSING"
+                    if not blob:
+                        return "MISSING"
+                    return (("B%d" if (is_remote and not same) else "A%d") % i) + suffix
+                want.append((side(ka, ba, False), side(kb, bb, True)))
+            return want
+        want = expectation("")
 
         def norm(x):
             if x == MISSING:
@@ -230,6 +248,12 @@ def make_pairing(nentries, props=("C17",), known=()):
         E.goal("non-notebook-skipped", any(s[0] == "other" or s[1] == "other" for s in spec))
         E.goal("working-tree", remote_kind == 2)
         E.check("pairs==by-construction-expectation", gotn == want, info="got %r want %r spec %r" % (gotn, want, spec))
+        if got2 is not None:
+            gotn2 = [(norm(a), norm(b)) for a, b in got2]
+            want2 = expectation("'")
+            E.goal("second-request-after-refs-moved", len(want2) > 0)
+            E.check("second-request-pairs-current-content", gotn2 == want2,
+                    info="second request after the refs moved: got %r want %r spec %r" % (gotn2, want2, spec))
         # path filters prefixed by the sub-directory components
         d = seen.get("diff")
         if paths is None:
@@ -253,8 +277,15 @@ def make_pairing(nentries, props=("C17",), known=()):
 def make_gitref(props=("C17",), known=()):
     """is_gitref(candidate): a candidate that exists on disk (file OR
     directory) is a path, never a ref; otherwise it is a ref iff git says so;
-    the null file is never a ref.  resolve_diff_args must then route it to
-    base/remote or to the path filters accordingly."""
+    the null file is never a ref.  resolve_diff_args must then route one, two
+    or three positional arguments to base / remote / path filters as its
+    documentation says: one argument -- a ref is the base, anything else a
+    path filter against HEAD; two -- (ref, non-ref) is base + path filter
+    (the path may be that of a file deleted since), everything else is left
+    alone; three or more -- the leading refs are base / remote, the rest are
+    path filters."""
+    KINDS = ("absent", "file", "dir", "null")
+
     def h(E):
         import os
         import tempfile
@@ -262,36 +293,57 @@ def make_gitref(props=("C17",), known=()):
         import argparse
         import nbdime.gitfiles as gf
         import nbdime.args as nargs
-        kind = ("absent", "file", "dir", "null")[E.choice("kind", 4)]
-        valid = bool(E.choice("validref", 2))
+        from nbdime.utils import EXPLICIT_MISSING_FILE
+        nargs_n = 1 + E.choice("nargs", 3)
         td = tempfile.mkdtemp(prefix="vfc17r")
         saved = (gf.is_valid_gitref, nargs.is_gitref)
         try:
-            if kind == "file":
-                cand = os.path.join(td, "docs")
-                open(cand, "w").close()
-            elif kind == "dir":
-                cand = os.path.join(td, "docs")
-                os.mkdir(cand)
-            elif kind == "null":
-                from nbdime.utils import EXPLICIT_MISSING_FILE
-                cand = EXPLICIT_MISSING_FILE
-            else:
-                cand = os.path.join(td, "docs")
-            gf.is_valid_gitref = lambda ref, path=None: valid
-            got = gf.is_gitref(cand)
-            want = (kind == "absent") and valid
-            E.nontrivial(kind in ("file", "dir"))
-            E.goal("existing-directory-that-is-also-a-ref", kind == "dir" and valid)
-            E.check("is_gitref==(not on disk and valid ref)", got == want, info="kind %s valid %s got %r" % (kind, valid, got))
-            # one positional argument: ref -> base, path -> filter against HEAD
+            cands, isref, valid_names = [], [], set()
+            for i in range(min(nargs_n, 2)):
+                kind = KINDS[E.choice("kind%d" % i, 4 if i == 0 else 3)]
+                valid = bool(E.choice("validref%d" % i, 2))
+                cand = os.path.join(td, "name%d" % i)
+                if kind == "file":
+                    open(cand, "w").close()
+                elif kind == "dir":
+                    os.mkdir(cand)
+                elif kind == "null":
+                    cand = EXPLICIT_MISSING_FILE
+                if valid:
+                    valid_names.add(cand)
+                cands.append(cand)
+                isref.append(kind == "absent" and valid)
+                if i == 0:
+                    E.nontrivial(kind in ("file", "dir"))
+                    E.goal("existing-directory-that-is-also-a-ref", kind == "dir" and valid)
+                if i == 1:
+                    E.goal("ref-then-deleted-path", isref[0] and kind == "absent" and not valid)
+            gf.is_valid_gitref = lambda ref, path=None: ref in valid_names
+            for cand, want in zip(cands, isref):
+                got = gf.is_gitref(cand)
+                E.check("is_gitref==(not on disk and valid ref)", got == want, info="candidate %r valid %s got %r" % (cand, cand in valid_names, got))
             nargs.is_gitref = gf.is_gitref
-            a = argparse.Namespace(base=cand, remote=None, paths=None)
+            extra = [os.path.join(td, "more.ipynb")] if nargs_n == 3 else None
+            a = argparse.Namespace(base=cands[0], remote=cands[1] if nargs_n >= 2 else None, paths=extra)
             base, remote, paths = nargs.resolve_diff_args(a)
-            if want:
-                E.check("single-ref-argument-is-the-base", base == cand and not paths, info=repr((base, remote, paths)))
+            got = (base, remote, paths)
+            if nargs_n == 1:
+                want = (cands[0], None, None) if isref[0] else ("HEAD", None, cands[0])
+                E.check("one-argument-routing", got == want, info="got %r want %r" % (got, want))
+            elif nargs_n == 2:
+                if isref[0] and not isref[1]:
+                    want = (cands[0], None, cands[1])
+                else:
+                    want = (cands[0], cands[1], None)
+                E.check("two-argument-routing", got == want, info="got %r want %r (is ref: %r)" % (got, want, isref))
             else:
-                E.check("single-path-argument-filters-HEAD", base == "HEAD" and paths == cand, info=repr((base, remote, paths)))
+                if not isref[0]:
+                    want = (None, None, [cands[0], cands[1]] + extra)
+                elif not isref[1]:
+                    want = (cands[0], None, [cands[1]] + extra)
+                else:
+                    want = (cands[0], cands[1], extra)
+                E.check("three-argument-routing", got == want, info="got %r want %r (is ref: %r)" % (got, want, isref))
         finally:
             gf.is_valid_gitref, nargs.is_gitref = saved
             shutil.rmtree(td, ignore_errors=True)
